@@ -103,6 +103,15 @@ def episode(prop, mon, subj, rng, nsteps, acc):
                 mon.on_trans(subj.step(i, seed, arg=arg, desc=dd))
                 acc.count("steps_with_req_access_root")
                 continue
+        if prop == "C07" and rng.random() < 0.05:
+            # an Action object with its own success probability (scans too)
+            pr = rng.choice([0.0, 0.3, 0.7])
+            obj, dd = subj.root_requiring(i, prob=pr)
+            lo = subj.seed_for(i, True, rng, desc=dd)
+            hi = subj.seed_for(i, False, rng, desc=dd)
+            mon.pair(subj.gen(cur, i, lo, arg=obj, desc=dd),
+                     subj.gen(cur, i, hi, arg=obj, desc=dd))
+            acc.count("pairs_with_custom_probability")
         if prop == "C07":
             lo = subj.seed_for(i, True, rng)
             hi = subj.seed_for(i, False, rng)
